@@ -925,7 +925,7 @@ class CodeGenerator(NodeVisitor):
                            'template._get_default_module_async())'
                            '._body_stream:')
         else:
-            if supports_yield_from:
+            if supports_yield_from and not getattr(node, 'autoindent', False):
                 self.writeline('yield from template._get_default_module()'
                                '._body_stream')
                 skip_event_yield = True
